@@ -183,7 +183,7 @@ def _odd(b):
 _ROW_OF = {(hi, base): row for row, (hi, base) in g.ROW_CODE.items()}
 
 
-def italics_sweep(mid_keys, pac_keys):
+def italics_sweep(mid_keys, pac_keys, thorough=False):
     """last round: EVERY code of the reader's regenerated mid-row table and EVERY key of its preamble table, sent WHILE
     ITALICS ARE ON and followed by characters on the same row and on a following row. Only the KEYS (code words) of
     pycaption's tables are used; what each word means is decoded here from the CEA-608 code assignments (mid-row codes
@@ -215,7 +215,7 @@ def italics_sweep(mid_keys, pac_keys):
             info["mid_row_keys_not_608_mid_row"].append(key)       # e.g. 94a8 (flash on): not a mid-row code of CEA-608
             continue
         info["mid_row_table_codes"] += 1
-        for r in (1, 13):
+        for r in ((1, 13) if thorough else (13,)):
             # italics switched on by the preamble code / by a mid-row code; then the code under test; then characters on the
             # same row and on a following row (directly below: same caption / elsewhere: its own caption)
             out.append(([False, [[[r, 0, 0, 14, text_items("ab") + [[3, a]] + text_items("cd")],
@@ -303,6 +303,9 @@ def build_stream(prog, words, clear, rng=None, layout="line-per-load", doubling=
         words = inline if inline is not None else [list(ws[:-1]) + [W_EDM, W_EOC] for ws in words]
     for li, ws in enumerate(words):
         ws = list(ws)
+        if doubling == "writer-mixed":
+            loads.append(ws)                                      # the words of emit_load_wm (request 507) as they are
+            continue
         if layout == "no-enm" and ws and ws[0] == W_ENM:
             ws = ws[1:]                                           # a load without Erase-Non-displayed-Memory
         if layout == "edm-before-load" and li > 0:
@@ -328,7 +331,7 @@ def build_stream(prog, words, clear, rng=None, layout="line-per-load", doubling=
             lines += [ws, double_codes([W_EDM], doubling, rng)]
     else:
         lines = loads
-    lines = lines + [double_codes(list(clear), doubling, rng)]
+    lines = lines + [double_codes(list(clear), "all" if doubling == "writer-mixed" else doubling, rng)]
     out = []
     for ws in lines:
         out.append((frame, ws))
@@ -494,6 +497,12 @@ def run(ctx):
                                                               ([[17 - r, 0, 0, 16, text_items("er")]] if r > 1 else [])]]
             for dbl in ("none", "all"):
                 progs.append(("sweep", p, "edm-inline", dbl, "plain"))
+    for i_sp in range(16):                                        # wave 8: every special character, single among doubled codes
+        if i_sp != 9:
+            r = 1 + i_sp % 14
+            p = [False, [[[r, 0, 0, 16, text_items("Hi ") + [[1, i_sp]]], [r + 1, 0, 0, 16, [[1, i_sp]] + text_items("a") + [[1, (i_sp + 1) % 16 if (i_sp + 1) % 16 != 9 else 10]] + text_items("b")]],
+                         [[15, 0, 0, 16, text_items("x") + [[1, i_sp]] + text_items("y")]]]]
+            progs.append(("sweep", p, "edm-inline", "writer-mixed", "plain"))
     for r in range(1, 15):                                        # an indent-0-form preamble code ends italics like any other
         for p in ([False, [[[r, 0, 0, 14, text_items("it")], [r + 1, 0, 0, 16, text_items("pl")]]]],
                   [False, [[[r + 1, 0, 0, 15, text_items("it")], [r, 0, 0, 17, text_items("pl")]]]]):
@@ -502,11 +511,13 @@ def run(ctx):
     # are on; keys only - meanings from CEA-608 (see italics_sweep)
     from pycaption.scc import constants as _c
     pac_keys = [hi + lo for hi, los in _c.PAC_BYTES_TO_POSITIONING_MAP.items() for lo in los]
-    isw, isw_info = italics_sweep(list(_c.MID_ROW_CODES), pac_keys)
+    isw, isw_info = italics_sweep(list(_c.MID_ROW_CODES), pac_keys, ctx.thorough)
     subst, need_key = {}, {}
+    nmid = (6 if ctx.thorough else 3) * isw_info["mid_row_table_codes"]
     for k, (p, sub, key) in enumerate(isw):
-        is_mid = k < 6 * isw_info["mid_row_table_codes"]
-        for dbl in (("none", "all") if is_mid else (("all",) if k % 2 else ("none",))):
+        # mid-row codes (incl. black 97ae / 972f): single and doubled in every tier; preamble keys: all single in the quick
+        # tier, alternately single / doubled in the thorough tier
+        for dbl in (("none", "all") if k < nmid else (("all",) if (k % 2 and ctx.thorough) else ("none",))):
             subst[len(progs)] = sub
             need_key[len(progs)] = key
             progs.append(("sweep", p, "line-per-load", dbl, "plain"))
@@ -516,17 +527,32 @@ def run(ctx):
         for dbl in ("none", "all"):
             progs.append(("enum", p, "line-per-load", dbl, "plain"))
     dist["enumerated_programs"] = len(progs) - dist["sweep_programs"]
-    for _ in range(ctx.n(1500, 40000)):
-        progs.append(("random", rand_program(rng), rng.choice(LAYOUTS), rng.choice(["none", "all", "all", "mixed"]),
+    for _ in range(ctx.n(1100, 40000)):
+        lay = rng.choice(LAYOUTS)
+        # wave 8: in the writer's layout a third of the programs in the writer's doubling - preamble and mode codes doubled,
+        # the codes inside the rows (special / extended characters, mid-row codes, backspace) single: emit_load_wm (507)
+        dbl = "writer-mixed" if (lay == "edm-inline" and rng.random() < 0.4) else rng.choice(["none", "all", "all", "mixed"])
+        rp = rand_program(rng)
+        if dbl == "writer-mixed" and any(a == b and a[0] in (1, 3, 5) for l in rp[1] for r in l for a, b in zip(r[4], r[4][1:])):
+            dbl = "all"     # a code meant twice in a row (two backspaces ...) can only be transmitted doubled (see double_codes)
+        progs.append(("random", rp, lay, dbl,
                       rng.choice(["plain", "plain", "plain", "upper", "crlf", "trailing-blank"])))
     dist["random_programs"] = len(progs) - dist["sweep_programs"] - dist["enumerated_programs"]
     emitted = oracle_batch([(501, p) for _, p, _, _, _ in progs])
     inl_idx = [i for i, pr in enumerate(progs) if pr[2] == "edm-inline"]
     inl = dict(zip(inl_idx, oracle_batch([(506, progs[i][1]) for i in inl_idx])))
     dist["edm_inline_programs_from_emit_load_w"] = len(inl_idx)
+    wm_idx = [i for i in inl_idx if progs[i][3] == "writer-mixed"]
+    wm = dict(zip(wm_idx, oracle_batch([(507, progs[i][1]) for i in wm_idx])))
+    dist["writer_mixed_doubling"] = {"programs": len(wm_idx), "loads": 0, "loads_inside_dd_hypothesis": 0}
+    for i in wm_idx:
+        for okl, ws in wm[i]:
+            dist["writer_mixed_doubling"]["loads"] += 1
+            dist["writer_mixed_doubling"]["loads_inside_dd_hypothesis"] += okl == 1
+        inl[i] = [ws for _, ws in wm[i]]
     cases = []
     for i, ((kind, p, layout, dbl, text), e) in enumerate(zip(progs, emitted)):
-        if i in inl and [list(ws[:-1]) + [W_EDM, W_EOC] for ws in e[2]] != [list(ws) for ws in inl[i]]:
+        if i in inl and i not in wm and [list(ws[:-1]) + [W_EDM, W_EOC] for ws in e[2]] != [list(ws) for ws in inl[i]]:
             res["disagreements"].append({"which": "emit_load_w (506) is not emit_load (501) with EDM before the EOC", "program": p})
         words = e[2]
         if subst.get(i):
@@ -606,8 +632,48 @@ def run(ctx):
                                                    "character of the previous row (a 608 decoder erases nothing)"}[shape],
                 "input": small, "program": small, "stream": sstream, "layout": layout, "doubling": dbl,
                 "impl_obs": show(so)})
+    # E (seed campaign): ONE SCCReader object reused after a read that RAISED - an over-long row (line-length error at the
+    # end of read, after everything was decoded) or a malformed timecode in the middle of the file (timing error while
+    # half-decoded captions, a queued pop-on cue and a non-empty buffer exist) - and then reading a well-formed pop-on
+    # stream: text / rows / italics / position must equal a fresh reader's (and satisfy ok_c05 like them)
+    def bad_file(kind):
+        first = [g.ENM, g.RCL, g.pac(rng.randint(1, 15), rng.choice([0, 4, 8]), italics=False)] + g.text_words("left over") + \
+                [g.MID_ITALICS] + g.text_words("it") + [g.EOC]
+        if kind == "long-row":
+            second = [g.ENM, g.RCL, g.pac(15)] + g.text_words("x" * rng.choice([33, 34, 40])) + [g.EOC]
+            return g.doc([(g.timecode(30, False), first), (g.timecode(90, False), second), (g.timecode(200, False), [g.EDM])])
+        second = [g.ENM, g.RCL, g.pac(rng.randint(1, 15), italics=True)] + g.text_words("never shown") + [g.EOC]
+        tc = g.timecode(90, False)
+        return g.doc([(g.timecode(30, False), first), (tc[:8] + "." + tc[9:], second), (g.timecode(200, False), [g.EDM])])
+    pool = [c for c in cases if c[3] and c[0] in ("random", "sweep")]
+    reuse = [rng.choice(pool) for _ in range(ctx.n(160, 3000))] if pool else []
+    dist["reader_reused_after_a_raising_read"] = {"long-row": 0, "bad-timecode": 0, "earlier_read_ended": {}}
+    rcases = []
+    for c in reuse:
+        kind = rng.choice(["long-row", "bad-timecode"])
+        hist = [[bad_file(kind), {}]] + ([[bad_file("long-row"), {}]] if rng.random() < 0.25 else [])
+        outs = []
+        o2 = sccobs.observe(c[4], history=hist, outcomes=outs)
+        o1 = sccobs.observe(c[4])
+        res["evaluations"] += 1
+        dist["reader_reused_after_a_raising_read"][kind] += 1
+        for k in outs:
+            dd_ = dist["reader_reused_after_a_raising_read"]["earlier_read_ended"]
+            dd_[k] = dd_.get(k, 0) + 1
+        rcases.append((c, kind, hist, o1, o2))
+    roks = oracle_batch([(502, [c[1], wire_obs(o)]) for c, _, _, o1, o2 in rcases for o in (o1, o2)])
+    for j, (c, kind, hist, o1, o2) in enumerate(rcases):
+        d = sccobs.same_view(o1, o2)
+        ok1, ok2 = roks[2 * j], roks[2 * j + 1]
+        if d or (ok1 == 1 and ok2 != 1):
+            res["violations"].append({
+                "kind": "reader-reuse", "shape": kind, "replay": "reuse",
+                "what": "a reader object that has raised on an earlier file reads a well-formed pop-on stream differently from "
+                        "a fresh reader (text / rows / italics / position)",
+                "input": c[1], "program": c[1], "stream": c[4], "history": hist, "difference": d,
+                "impl_obs": show(o2), "fresh_obs": show(o1)})
     # D: soups that stay in pop-on mode - decoder model vs implementation at the level the property fixes
-    soups = [sccsoup.soup(rng, popon_only=True) for _ in range(ctx.n(1500, 40000))]
+    soups = [sccsoup.soup(rng, popon_only=True) for _ in range(ctx.n(1000, 40000))]
     # loads that never address a row (text right after ENM RCL / RCL): the position they get depends on whether the
     # tracker was reset - outside the statement, compared with the model only
     for row in (1, 7, 14, 15):
@@ -632,7 +698,8 @@ def run(ctx):
                    "programs of 1-4 loads x 1-4 rows (35% with the shapes of the wide domain), layouts {line per load, no "
                    "ENM, EDM before the load, EDM lines, several loads per line, split loads, EDM inline before the EOC = the "
                    "writer's layout (words from emit_load_w)}, doubling {none, all, mixed "
-                   "per code}, text {plain, upper-case hex, CRLF, trailing blanks}; D: random pop-on soups. Non-trivial: "
+                   "per code, writer-mixed = preamble / mode codes doubled and the codes inside rows single (emit_load_wm)}, text {plain, upper-case hex, CRLF, trailing blanks}; D: random pop-on soups; E: one reader object reused after a read "
+                   "that raised (over-long row / malformed timecode mid-file) vs a fresh reader, on well-formed programs. Non-trivial: "
                    "a sweep / enumerated program or a program with at least two rows, inside dom_c05_wide. Distinct "
                    "streams counted.")
     res["samples"] = [{"program": c[1], "stream": c[4]} for c in cases[-2:]]
@@ -659,6 +726,12 @@ def run(ctx):
 
 
 def replay(ctx, rec):
+    if rec.get("replay") == "reuse" or rec.get("kind") == "reader-reuse":
+        o2 = sccobs.observe(rec["stream"], history=rec["history"])
+        o1 = sccobs.observe(rec["stream"])
+        d = sccobs.same_view(o1, o2)
+        bad = bool(d) or (oracle1(502, [rec["program"], wire_obs(o1)]) == 1 and oracle1(502, [rec["program"], wire_obs(o2)]) != 1)
+        return bad, str(d) + " " + str(show(o2))[:500]
     o = sccobs.observe(rec["stream"])
     ok = oracle1(502, [rec["program"], wire_obs(o)])
     return ok != 1, str(show(o))[:600]
